@@ -332,7 +332,8 @@ def _root_.DepLogic.Atom.exactView (a : Atom) : Bool :=
   -- specifier view (it is not in `_VERSION_LIKE_MARKER_NAME`)
   if versionEvalNames.contains a.name && !versionLikeNames.contains a.name then false
   else if !a.reversed || !versionLikeNames.contains a.name then true
-  else if a.op == .in_ || a.op == .notIn then true
+  -- the `fix:` for D26: `"lit" in name` tests the literal against the value as a substring
+  else if a.op == .in_ || a.op == .notIn then false
   else a.op != .compat && (splitDots a.value).all fun p => (SpecParse.natOfDigits? p.toList).isSome
 
 /-- `_merge_single_markers` past the exact-specifier guard -/
@@ -758,9 +759,16 @@ def only : Nat → M → List String → M
 
 /-! ### text -/
 
+/-- `_quote(value)` (the `fix:` for D27): backslashes doubled, line breaks escaped, single quotes around a value
+    that contains a double quote (and no single quote), `\x22` otherwise -/
+def quoteS (v : String) : String :=
+  let v := ((v.replace "\\" "\\\\").replace "\n" "\\n").replace "\r" "\\r"
+  if v.contains '"' && !v.contains '\'' then "'" ++ v ++ "'"
+  else "\"" ++ v.replace "\"" "\\x22" ++ "\""
+
 def _root_.DepLogic.Atom.str (a : Atom) : String :=
-  if a.reversed then "\"" ++ a.value ++ "\" " ++ a.op.reflect.str ++ " " ++ a.name
-  else a.name ++ " " ++ a.op.str ++ " \"" ++ a.value ++ "\""
+  if a.reversed then quoteS a.value ++ " " ++ a.op.reflect.str ++ " " ++ a.name
+  else a.name ++ " " ++ a.op.str ++ " " ++ quoteS a.value
 
 mutual
 /-- `__str__` -/
@@ -768,8 +776,8 @@ def str : M → String
   | .any => ""
   | .empty => "<empty>"
   | .expr a => a.str
-  | .eqU n vs => " or ".intercalate (vs.map fun v => n ++ " == \"" ++ v ++ "\"")
-  | .neM n vs => " and ".intercalate (vs.map fun v => n ++ " != \"" ++ v ++ "\"")
+  | .eqU n vs => " or ".intercalate (vs.map fun v => n ++ " == " ++ quoteS v)
+  | .neM n vs => " and ".intercalate (vs.map fun v => n ++ " != " ++ quoteS v)
   | .multi ms => " and ".intercalate (strMultiChildren ms)
   | .union ms => " or ".intercalate (strList ms)
 def strMultiChildren : List M → List String
